@@ -620,7 +620,14 @@ func report(id, tier string, seed uint64, po *planOut, st *shardState, t0 time.T
 	if len(samples) == 0 {
 		samples = []interface{}{"(no case completed)"}
 	}
+	// checks whose cases bundle many executions report them through "_evaluations"
+	cases := st.evals
+	if extra, ok := st.counts["_evaluations"]; ok {
+		st.evals += int(extra)
+		delete(st.counts, "_evaluations")
+	}
 	cov := map[string]interface{}{
+		"cases":               cases,
 		"evaluations":         st.evals,
 		"distinct_nontrivial": len(st.hashes),
 		"rule":                po.Rule,
